@@ -70,7 +70,7 @@ let c11_nb (old : bool) (steps : string) : string =
   let pos = ref 0 and dead = ref false and ready = ref 0 in
   let polls = ref [] and out = Stdlib.Buffer.create 64 in
   Stdlib.List.iteri (fun i it ->
-      if it = "p" && not !dead then begin
+      if (it = "p" || (it <> "" && it.[0] = 'q')) && not !dead then begin
         (* the poll starts when step i is reached and the previous poll has returned *)
         let start = max i !ready in
         let marks =
